@@ -52,7 +52,7 @@ pub fn number_regex_parser(config: &SmartCalcConfig, tokinizer: &mut Tokinizer, 
             }
             else if let Some(decimal) = capture.name("DECIMAL") {
                 parse_end = decimal.end();
-                number = match decimal.as_str().replace(&config.thousand_separator[..], "").replace(&config.decimal_seperator[..], ".").parse::<f64>() {
+                number = match decimal.as_str().replace(&tokinizer.thousand_separator[..], "").replace(&tokinizer.decimal_seperator[..], ".").parse::<f64>() {
                     Ok(num) => {
                         number_match = Some(decimal);
                         match capture.name("NOTATION") {
